@@ -62,7 +62,8 @@ def run(pid, tier):
     r = core.tlc("MC_Flow", cfg(sfx, rs, big, invariants), pid.lower() + "-mc", workers=12, timeout=14400)
     core.log("%s: TLC MC_Flow: %d states, %.1fs" % (pid, r["distinct"], r["wall"]))
     obs_path = os.path.join(core.BUILD, "%s-gen-observations.ndjson" % pid.lower())
-    rep = core.zv(["replay", "flow", r["out_path"], obs_path], timeout=14400)
+    keep = max(1, r["distinct"] // 300000)
+    rep = core.zv(["replay", "flow", r["out_path"], obs_path, keep], timeout=14400)
     core.log("  replayed %d flow inputs (%d dirty/ahead), %d component mismatches"
              % (rep["evaluations"], rep["nontrivial"], rep["mismatch_count"]))
     if rep["evaluations"] == 0:
